@@ -358,6 +358,116 @@ fn one<R: Residual>(c: &ConfigG<R>, par: &Par) -> Value {
         })
 }
 
+/// Caloric properties of the State layer (properties.rs: c_v, c_p, Joule-Thomson, isentropic / isenthalpic compressibility,
+/// thermal expansivity, Grueneisen parameter, speed of sound) for models with an ideal-gas part:
+///  * tie of the getters to the expressions of coq/theories/CaloricC01.v (one `interval` goal per state and getter), and
+///  * the property's own reading: each coefficient vs the Jacobian quotient of NUMERICAL partial derivatives (central differences of
+///    H, S, U, p of neighbouring states in T and V, public API only).
+fn caloric(out_dir: &str, full: bool, seed: u64) -> Vec<Value> {
+    use feos::ideal_gas::{Joback, JobackRecord};
+    use feos_core::parameter::{Identifier, Parameter, PureRecord};
+    use feos_core::EquationOfState;
+    let mut out = Vec::new();
+    let names: Vec<&str> = if full {
+        vec!["pr2", "pcsaft_propane_butane_kij", "pcsaft_water_methanol", "pcsaft_acetone_butanone", "gcpcsaft_propanol_ethanol", "pets2", "saftvrmie_methanol_ethanol"]
+    } else {
+        vec!["pr2", "pcsaft_propane_butane_kij", "pcsaft_water_methanol"]
+    };
+    for c in configs::all(true).into_iter().filter(|c| names.contains(&c.name.as_str())) {
+        let jrec: Vec<_> = (0..c.ncomp)
+            .map(|i| PureRecord::new(Identifier::default(), 1.0, JobackRecord::new(25.0 + 8.0 * i as f64, 0.12 - 0.02 * i as f64, 3e-5, -2e-8, 4e-12)))
+            .collect();
+        let ig = Arc::new(Joback::from_records(jrec, None).unwrap());
+        let eos = Arc::new(EquationOfState::new(ig, c.model.clone()));
+        let mut rng = Rng(seed ^ trace::fxhash(&c.name) ^ 0xCA10);
+        let k = if full { 6 } else { 3 };
+        for si in 0..k {
+            let s = configs::sample_state(&c, &mut rng);
+            let mk = |t: f64, v: f64| {
+                State::new_nvt(&eos, Temperature::from_reduced(t), Volume::from_reduced(v), &Moles::from_reduced(Array1::from_vec(s.n.clone()))).ok()
+            };
+            let Some(st) = mk(s.t, s.v) else { continue };
+            let tot = Contributions::Total;
+            let n: f64 = s.n.iter().sum();
+            let (att, atv, avv) = (-st.ds_dt(tot).to_reduced(), -st.dp_dt(tot).to_reduced(), -st.dp_dv(tot).to_reduced());
+            let api = [
+                ("cv", st.molar_isochoric_heat_capacity(tot).to_reduced()),
+                ("cp", st.molar_isobaric_heat_capacity(tot).to_reduced()),
+                ("joule_thomson", st.joule_thomson().to_reduced()),
+                ("isentropic_compressibility", st.isentropic_compressibility().to_reduced()),
+                ("isenthalpic_compressibility", st.isenthalpic_compressibility().to_reduced()),
+                ("thermal_expansivity", st.thermal_expansivity().to_reduced()),
+                ("grueneisen", st.grueneisen_parameter()),
+            ];
+            if ![att, atv, avv].iter().chain(api.iter().map(|x| &x.1)).all(|x| x.is_finite()) || avv == 0.0 {
+                continue;
+            }
+            let model = |q: &str| match q {
+                "cv" => "m_cv T n att".to_string(),
+                "cp" => "m_cp T n att atv avv".to_string(),
+                "grueneisen" => "m_grueneisen T V n att atv".to_string(),
+                "thermal_expansivity" => "m_thermal_expansivity V atv avv".to_string(),
+                q => format!("m_{q} T V n att atv avv"),
+            };
+            let mut g = String::new();
+            g.push_str("From Coq Require Import Reals.\nFrom Interval Require Import Tactic.\nFrom FeosVerif Require Import CaloricC01.\nLocal Open Scope R_scope.\n");
+            g.push_str(&format!("Definition T := {:e}.\nDefinition V := {:e}.\nDefinition n := {:e}.\nDefinition att := {:e}.\nDefinition atv := {:e}.\nDefinition avv := {:e}.\n", s.t, s.v, n, att, atv, avv));
+            for (q, x) in api.iter() {
+                g.push_str(&format!("Goal Rabs ({} - ({:e})) <= 1e-10 * Rabs ({:e}).\nProof. unfold m_joule_thomson, m_isenthalpic_compressibility, m_isentropic_compressibility, m_grueneisen, m_thermal_expansivity, m_cp, m_cv, S_T, p_T, p_V, T, V, n, att, atv, avv. interval with (i_prec 100). Qed.\n", model(q), x, x));
+            }
+            let name = format!("caloric_{}_{si}", c.name);
+            std::fs::write(format!("{out_dir}/{name}.v"), g).unwrap();
+            // numerical Jacobians from neighbouring states
+            let h = 1e-4;
+            let get = |st: &State<_>| -> [f64; 5] {
+                [
+                    st.enthalpy(tot).to_reduced(),
+                    st.entropy(tot).to_reduced(),
+                    st.internal_energy(tot).to_reduced(),
+                    st.pressure(tot).to_reduced(),
+                    0.0,
+                ]
+            };
+            let mut fd = Vec::new();
+            if let (Some(tp), Some(tm), Some(vp), Some(vm)) = (mk(s.t * (1.0 + h), s.v), mk(s.t * (1.0 - h), s.v), mk(s.t, s.v * (1.0 + h)), mk(s.t, s.v * (1.0 - h))) {
+                let (gtp, gtm, gvp, gvm) = (get(&tp), get(&tm), get(&vp), get(&vm));
+                let dt = |k: usize| (gtp[k] - gtm[k]) / (2.0 * h * s.t);
+                let dv = |k: usize| (gvp[k] - gvm[k]) / (2.0 * h * s.v);
+                // index: 0 H, 1 S, 2 U, 3 p; T = (1,0), V = (0,1)
+                let jac = |f: (f64, f64), hh: (f64, f64), g: (f64, f64)| (f.0 * g.1 - f.1 * g.0) / (hh.0 * g.1 - hh.1 * g.0);
+                let (hh, ss, uu, pp) = ((dt(0), dv(0)), (dt(1), dv(1)), (dt(2), dv(2)), (dt(3), dv(3)));
+                let (tt, vv) = ((1.0, 0.0), (0.0, 1.0));
+                let num = [
+                    ("cv", uu.0 / n),
+                    ("cp", jac(hh, tt, pp) / n),
+                    ("joule_thomson", jac(tt, pp, hh)),
+                    ("isentropic_compressibility", -jac(vv, pp, ss) / s.v),
+                    ("isenthalpic_compressibility", -jac(vv, pp, hh) / s.v),
+                    ("thermal_expansivity", jac(vv, tt, pp) / s.v),
+                    ("grueneisen", s.v * jac(pp, uu, vv)),
+                ];
+                for ((q, x), (_, y)) in api.iter().zip(num.iter()) {
+                    let rel = (x - y).abs() / x.abs().max(y.abs()).max(1e-300);
+                    if !(rel <= 2e-5) {
+                        fd.push(json!({"quantity": q, "reported": x, "from_numerical_partial_derivatives": y, "relative": rel}));
+                    }
+                }
+                // speed of sound (SI) against 1/sqrt(rho_mass kappa_S) from the numerical isentropic compressibility
+                let w = st.speed_of_sound().convert_into(quantity::METER / quantity::SECOND);
+                let rho_mass = (st.density * st.total_molar_weight()).convert_into(quantity::KILOGRAM / quantity::METER.powi::<typenum::P3>());
+                let ks_si = (-jac(vv, pp, ss) / s.v) / (1.380649e-23 * 1e30);
+                let w_num = (1.0 / (rho_mass * ks_si)).sqrt();
+                if w.is_finite() && w_num.is_finite() && !((w - w_num).abs() <= 2e-5 * w.abs()) {
+                    fd.push(json!({"quantity": "speed_of_sound", "reported": w, "from_numerical_partial_derivatives": w_num}));
+                }
+            }
+            out.push(json!({"file": name, "config": c.name, "state_TVN": s.vars(), "api": api.iter().map(|(q, x)| json!([q, x])).collect::<Vec<_>>(),
+                            "jets": [att, atv, avv], "fd_failures": fd}));
+        }
+    }
+    out
+}
+
 /// finite-difference oracle only
 fn one_oracle<R: Residual>(c: &ConfigG<R>, seed: u64, n: usize) -> Value {
     let mut rng = Rng(seed ^ trace::fxhash(&c.name) ^ 0xC01);
@@ -429,7 +539,8 @@ pub fn run(out_dir: &str, tier: &str, seed: u64, only: Option<String>, search_n:
             oracle_only.push(one_oracle(&c, seed, par.k_fd.min(4)));
         }
     }
-    json!({"property": "C01", "tier": tier, "seed": seed, "prec": par.prec, "configs": results, "oracle_only": oracle_only})
+    let cal = if only.is_none() { caloric(out_dir, full, seed) } else { Vec::new() };
+    json!({"property": "C01", "tier": tier, "seed": seed, "prec": par.prec, "configs": results, "oracle_only": oracle_only, "caloric": cal})
 }
 
 fn main() {
